@@ -223,7 +223,7 @@ func (s *seedInfo) mutate(rng *rand.Rand) ([]patch, int, string) {
 	npages := len(s.data) / s.ps
 	pick := func() *hx.WPage { return s.pages[rng.Intn(len(s.pages))] }
 	pageOff := func(p *hx.WPage) int { return (p.No - 1) * s.ps }
-	kinds := []string{"dag-chain", "overflow-rho", "ptr", "ptr", "cellcount", "cellptr", "varint-payloadlen", "varint-rowid", "varint-hdrsize", "varint-serial", "pagetype",
+	kinds := []string{"dag-chain", "overflow-rho", "overflow-rho", "ptr", "ptr", "cellcount", "cellptr", "varint-payloadlen", "varint-rowid", "varint-hdrsize", "varint-serial", "pagetype",
 		"master-rootpage", "master-sql", "master-type", "header", "truncate", "flip", "overflow-ptr", "overflow-ptr", "free-bytes"}
 	for tries := 0; tries < 50; tries++ {
 		kind := kinds[rng.Intn(len(kinds))]
@@ -283,10 +283,23 @@ func (s *seedInfo) mutate(rng *rand.Rand) ([]patch, int, string) {
 		case "overflow-rho":
 			// a chain that loops back into its middle (3->4->5->4) on a cell whose declared payload
 			// length is far larger than the file, rebuilt so that the cell stays self-consistent
-			p := pick()
-			if p.Kind == 0x05 {
+			// among the pages that have a spilled cell at all (a uniform pick over all pages rarely finds one)
+			var withOvfl []*hx.WPage
+			for _, q := range s.pages {
+				if q.Kind == 0x05 {
+					continue
+				}
+				for _, c := range q.Cells {
+					if c.OvflOff > 0 && c.OvflOff+4 <= s.ps {
+						withOvfl = append(withOvfl, q)
+						break
+					}
+				}
+			}
+			if len(withOvfl) == 0 {
 				continue
 			}
+			p := withOvfl[rng.Intn(len(withOvfl))]
 			type cand struct {
 				i int
 				c hx.WCell
@@ -308,7 +321,12 @@ func (s *seedInfo) mutate(rng *rand.Rand) ([]patch, int, string) {
 			}
 			k := 1 + rng.Intn(len(chain)-1)
 			j := rng.Intn(k + 1)
-			targets := []int64{1 << 31, 1 << 40, 1 << 62, int64(len(s.data)) * 4, int64(len(s.data)) * 1000}
+			if len(chain) >= 3 && rng.Intn(3) != 0 {
+				// the proper rho: the loop neither contains the first page of the chain nor is a self loop
+				k = 2 + rng.Intn(len(chain)-2)
+				j = 1 + rng.Intn(k-1)
+			}
+			targets := []int64{1 << 31, 1 << 40, 1 << 40, 1 << 62, 1 << 62, int64(len(s.data)) * 4, int64(len(s.data)) * 1000}
 			tgt := targets[rng.Intn(len(targets))]
 			u4 := int64(s.ps - 4)
 			newP := c.PayloadLen + ((tgt-c.PayloadLen)/u4)*u4 // same K, hence the same local size
